@@ -209,12 +209,224 @@ fn cmd_proc(args: &[String]) -> i32 {
     0
 }
 
+fn tokens_of(text: &str) -> Vec<String> {
+    // de-markup: roff escapes, then split on everything that cannot be part of a name/metavar/help token
+    let t = text
+        .replace("\\-", "-")
+        .replace("\\fB", " ")
+        .replace("\\fI", " ")
+        .replace("\\fR", " ")
+        .replace("\\fP", " ")
+        .replace("\\&", "");
+    t.split(|c: char| !(c.is_ascii_alphanumeric() || c == '_' || c == '-'))
+        .filter(|x| !x.is_empty())
+        .map(|x| x.to_string())
+        .collect()
+}
+
+/// HTML text -> tag events; a `<` that does not begin a well-formed tag is a "stray" event
+fn html_events(text: &str) -> Vec<J> {
+    let b = text.as_bytes();
+    let mut ev = Vec::new();
+    let mut i = 0;
+    while i < b.len() {
+        if b[i] != b'<' {
+            i += 1;
+            continue;
+        }
+        let rest = &text[i + 1..];
+        let end = rest.find('>');
+        let ok = end.and_then(|e| {
+            let inner = &rest[..e];
+            if inner.contains('<') || inner.contains('\n') {
+                return None;
+            }
+            let (closing, body) = match inner.strip_prefix('/') {
+                Some(x) => (true, x),
+                None => (false, inner),
+            };
+            let name: String = body.chars().take_while(|c| c.is_ascii_alphanumeric()).collect();
+            if name.is_empty() {
+                return None;
+            }
+            let attr = body[name.len()..].trim().to_string();
+            if closing && !attr.is_empty() {
+                return None;
+            }
+            Some((closing, name, attr, e))
+        });
+        match ok {
+            Some((closing, name, attr, e)) => {
+                let kind = if closing { "close" } else if name == "br" { "void" } else { "open" };
+                ev.push(json!({"e": kind, "tag": name, "attr": attr}));
+                i += e + 2;
+            }
+            None => {
+                ev.push(json!({"e": "stray", "tag": "", "attr": "", "at": i}));
+                i += 1;
+            }
+        }
+    }
+    ev.push(json!({"e":"eof"}));
+    ev
+}
+
+/// manpage text -> one event per line: control lines with their request and the escape sequences
+/// they contain, text lines with their escape sequences
+fn roff_events(text: &str) -> Vec<J> {
+    fn escapes(s: &str) -> Vec<String> {
+        let c: Vec<char> = s.chars().collect();
+        let mut out = Vec::new();
+        let mut i = 0;
+        while i < c.len() {
+            if c[i] == '\\' {
+                let take = match c.get(i + 1) {
+                    Some('f') => 3,
+                    Some('*') => 5,
+                    Some('(') => 4,
+                    Some(_) => 2,
+                    None => 1,
+                };
+                let e: String = c[i..(i + take).min(c.len())].iter().collect();
+                out.push(e);
+                i += take;
+            } else {
+                i += 1;
+            }
+        }
+        out
+    }
+    let mut ev = Vec::new();
+    for line in text.split('\n') {
+        if line.starts_with('.') || line.starts_with('\'') {
+            let req = line.split_whitespace().next().unwrap_or("").to_string();
+            let args = &line[req.len()..];
+            ev.push(json!({"e":"ctl","req":req,"line":line,"esc":escapes(args)}));
+        } else {
+            ev.push(json!({"e":"text","req":"","line":"","esc":escapes(line)}));
+        }
+    }
+    ev.push(json!({"e":"eof"}));
+    ev
+}
+
+fn all_paths(level: &J, prefix: &mut Vec<String>, out: &mut Vec<Vec<String>>) {
+    out.push(prefix.clone());
+    if level["tail"]["kind"] == "cmd" {
+        for c in level["tail"]["cmds"].as_array().unwrap() {
+            prefix.push(c["names"][0].as_str().unwrap().to_string());
+            all_paths(&c["level"], prefix, out);
+            prefix.pop();
+        }
+    }
+}
+
+/// C12/C16: render help of every command level and the three documentation formats, as token records
+fn cmd_render(args: &[String]) -> i32 {
+    let defs_path = arg_val(args, "--defs").expect("--defs");
+    let out = arg_val(args, "--out").expect("--out");
+    let docs = args.iter().any(|a| a == "--docs");
+    let rd = BufReader::new(std::fs::File::open(&defs_path).unwrap());
+    let mut w = BufWriter::new(std::fs::File::create(&out).unwrap());
+    let mut n = 0u64;
+    for l in rd.lines() {
+        let l = l.unwrap();
+        if l.trim().is_empty() {
+            continue;
+        }
+        let def: J = serde_json::from_str(&l).unwrap();
+        let b = match build(&def) {
+            Ok(b) => b,
+            Err(e) => {
+                writeln!(w, "{}", json!({"def": def["id"], "kind":"build_panic", "text": e})).unwrap();
+                continue;
+            }
+        };
+        let mut paths = Vec::new();
+        all_paths(&def, &mut Vec::new(), &mut paths);
+        for p in &paths {
+            let mut argv: Vec<std::ffi::OsString> = p.iter().map(|x| x.into()).collect();
+            argv.push("--help".into());
+            let o = run(&b, &argv, &RunOpts { name: Some(APP), comp: None });
+            let mut order = json!({"descr":0,"usage":0,"header":0,"items":0,"footer":0});
+            let mut items: Vec<String> = Vec::new();
+            for (i, line) in o.text.lines().enumerate() {
+                let ln = i + 1;
+                let mut set = |k: &str| {
+                    if order[k] == 0 {
+                        order[k] = json!(ln);
+                    }
+                };
+                if line.contains("DESCR-") {
+                    set("descr");
+                }
+                if line.starts_with("Usage:") {
+                    set("usage");
+                }
+                if line.contains("HEADER-") {
+                    set("header");
+                }
+                if line.contains("FOOTER-") {
+                    set("footer");
+                }
+                if line.starts_with("    ") {
+                    set("items");
+                    items.extend(tokens_of(line));
+                }
+            }
+            writeln!(w, "{}", json!({"def": def["id"], "path": p, "kind": "help", "class": o.class,
+                "items": items, "all": tokens_of(&o.text), "order": order, "text": o.text})).unwrap();
+            n += 1;
+        }
+        #[cfg(feature = "docgen")]
+        if docs {
+            use std::panic::{catch_unwind, AssertUnwindSafe};
+            for kind in ["markdown", "html", "manpage"] {
+                let r = catch_unwind(AssertUnwindSafe(|| match kind {
+                    "markdown" => b.parser.render_markdown(APP),
+                    "html" => b.parser.render_html(APP),
+                    _ => b.parser.render_manpage(APP, bpaf::doc::Section::General, None, None, None),
+                }));
+                match r {
+                    Ok(text) => {
+                        let toks = tokens_of(&text);
+                        let events = match kind {
+                            "html" => html_events(&text),
+                            "manpage" => roff_events(&text),
+                            _ => vec![],
+                        };
+                        writeln!(w, "{}", json!({"def": def["id"], "path": [], "kind": format!("{}-events", kind),
+                            "class": "doc", "events": events})).unwrap();
+                        for p in &paths {
+                            writeln!(w, "{}", json!({"def": def["id"], "path": p, "kind": kind, "class": "doc",
+                                "items": [], "all": toks, "order": {"descr":0,"usage":0,"header":0,"items":0,"footer":0},
+                                "text": if p.is_empty() { text.clone() } else { String::new() }})).unwrap();
+                            n += 1;
+                        }
+                    }
+                    Err(e) => {
+                        writeln!(w, "{}", json!({"def": def["id"], "path": [], "kind": kind, "class": "panic",
+                            "items": [], "all": [], "order": {"descr":0,"usage":0,"header":0,"items":0,"footer":0},
+                            "text": panic_text(&e)})).unwrap();
+                        n += 1;
+                    }
+                }
+            }
+        }
+        let _ = docs;
+    }
+    w.flush().unwrap();
+    println!("{}", json!({"records": n}));
+    0
+}
+
 fn main() {
     std::panic::set_hook(Box::new(|_| {}));
     let args: Vec<String> = std::env::args().collect();
     let code = match args.get(1).map(|s| s.as_str()) {
         Some("replay") => cmd_replay(&args[2..]),
         Some("proc") => cmd_proc(&args[2..]),
+        Some("render") => cmd_render(&args[2..]),
         _ => {
             eprintln!("usage: harness replay --defs F --cases F --out F [--dump-obs F]");
             2
